@@ -115,6 +115,11 @@ type c12Case struct {
 	FailFirst  int  `json:"failFirstAttempts"`
 	Limit      int  `json:"retryLimit"`
 	Siblings   int  `json:"siblings"`
+	// Shared: 1 = an earlier step "pre" of the same run has the same stdout: / stderr: files
+	// (its PreN bytes per stream must still be there at the end); 2 = the step's stdout: and
+	// stderr: name one file
+	Shared int `json:"sharedFiles,omitempty"`
+	PreN   int `json:"preBytes,omitempty"`
 }
 
 func (cs c12Case) key() string {
@@ -133,6 +138,12 @@ func (cs c12Case) key() string {
 	}
 	if cfg == "" {
 		cfg = "plain"
+	}
+	if cs.Shared == 1 {
+		cfg += "+shared-with-earlier-step"
+	}
+	if cs.Shared == 2 {
+		cfg += "+one-file-for-both"
 	}
 	retry := "no-retry"
 	if cs.FailFirst > 0 {
@@ -176,6 +187,20 @@ func c12Cases(c *core.Ctx) []c12Case {
 			out = append(out, c12Case{OutN: sz, ErrN: 1000 * cfg, Chunk: []int{0, 4096, 65536, 1000}[cfg], OutputVar: true, StdoutFile: cfg&1 != 0, StderrFile: cfg&2 != 0, Limit: 2})
 		}
 	}
+	// redirect files shared between steps of one run, and one file for both streams
+	for cfg := 0; cfg < 8; cfg++ {
+		for si, sz := range sizes {
+			for _, pre := range []int{1, 3000, 70000} {
+				cs := c12Case{StdoutFile: true, StderrFile: cfg&1 != 0, OutputVar: cfg&2 != 0, Script: cfg&4 != 0, Limit: 2, FailFirst: (cfg + si) % 2,
+					OutN: sz, ErrN: sizes[(si+3)%len(sizes)], Chunk: []int{0, 1000, 4096}[(cfg+si)%3], Shared: 1, PreN: pre}
+				out = append(out, cs)
+				if pre == 3000 {
+					cs.Shared, cs.StderrFile, cs.PreN = 2, true, 0
+					out = append(out, cs)
+				}
+			}
+		}
+	}
 	// large and random sizes
 	r := c.Rand("c12", 0)
 	nrand := c.Pick(300, 4000)
@@ -193,6 +218,11 @@ func c12Cases(c *core.Ctx) []c12Case {
 		}
 		if cs.Chunk <= 13 && cs.OutN+cs.ErrN > 30000 {
 			cs.Chunk = 512
+		}
+		if k := r.Intn(8); k == 0 && (cs.StdoutFile || cs.StderrFile) {
+			cs.Shared, cs.PreN = 1, 1+r.Intn(9000)
+		} else if k == 1 && cs.StdoutFile && cs.StderrFile {
+			cs.Shared = 2
 		}
 		capOutput(&cs)
 		out = append(out, cs)
@@ -237,6 +267,9 @@ func c12Run(c *core.Ctx, idx int, cs c12Case) {
 		if cs.StderrFile {
 			st.Stderr = filepath.Join(root, name+".stderr")
 		}
+		if cs.Shared == 2 {
+			st.Stderr = st.Stdout
+		}
 		if cs.OutputVar {
 			st.Output = "VERIF_C12_" + strings.ToUpper(name)
 		}
@@ -246,6 +279,13 @@ func c12Run(c *core.Ctx, idx int, cs c12Case) {
 		return st
 	}
 	steps := []dag.Step{mk("main", cs)}
+	if cs.Shared == 1 {
+		pre := mk("pre", c12Case{OutN: cs.PreN, ErrN: cs.PreN, StdoutFile: cs.StdoutFile, StderrFile: cs.StderrFile, Chunk: cs.Chunk})
+		pre.Stdout, pre.Stderr = steps[0].Stdout, steps[0].Stderr
+		_ = os.WriteFile(filepath.Join(root, "pre.attempt"), []byte("10"), 0644) // its pattern differs from every attempt of main
+		steps[0].Depends = []string{"pre"}
+		steps = append(steps, pre)
+	}
 	for i := 0; i < cs.Siblings; i++ {
 		steps = append(steps, mk(fmt.Sprintf("sib%d", i), c12Case{OutN: 100 * (i + 1), ErrN: 50, Limit: 0}))
 	}
@@ -312,15 +352,34 @@ func c12Run(c *core.Ctx, idx int, cs c12Case) {
 				what, file, len(got), attempts, st.Status, len(want), miss), desc)
 		}
 		check("log-stdout-incomplete", project(logb, 0), wantOut, "log")
-		if cs.StderrFile {
+		prefix := func(what string, got, want []byte, file string) {
+			c.Count("obligations", 1)
+			c.Count("bytes_checked", int64(len(want)))
+			c.Count("shared_file_checks", 1)
+			if !bytes.HasPrefix(got, want) {
+				c.Violate(idx, what+"|"+where, fmt.Sprintf("%s: the earlier step of the run wrote %d bytes to the %s it shares with this step; after the run the file (%d bytes of that stream) no longer starts with them",
+					what, len(want), file, len(got)), desc)
+			}
+		}
+		if cs.Shared == 2 {
+			ob, _ := os.ReadFile(filepath.Join(root, "main.stdout"))
+			c.Count("one_file_for_both_streams", 1)
+			check("stderr-file-incomplete", project(ob, 1), wantErr, "file named by both stdout: and stderr:")
+		} else if cs.StderrFile {
 			eb, _ := os.ReadFile(filepath.Join(root, "main.stderr"))
 			check("stderr-file-incomplete", project(eb, 1), wantErr, "stderr file")
+			if cs.Shared == 1 {
+				prefix("earlier-step-stderr-file-lost", project(eb, 1), emitPattern(1, 11, cs.PreN), "stderr file")
+			}
 		} else {
 			check("log-stderr-incomplete", project(logb, 1), wantErr, "log")
 		}
 		if cs.StdoutFile {
 			ob, _ := os.ReadFile(filepath.Join(root, "main.stdout"))
 			check("stdout-file-incomplete", project(ob, 0), wantOut, "stdout file")
+			if cs.Shared == 1 {
+				prefix("earlier-step-stdout-file-lost", project(ob, 0), emitPattern(0, 11, cs.PreN), "stdout file")
+			}
 		}
 		if cs.FailFirst > 0 && attempts > 1 {
 			c.Count("cases_with_retry", 1)
